@@ -54,7 +54,7 @@ func libGoroutines() []string {
 	return out
 }
 
-var c20Endings = []string{"Close", "CloseNow", "peer-close-then-Close", "protocol-error-then-CloseNow", "ctx-expiry-then-Close", "cut-eof-then-Close", "cut-err-then-CloseNow", "silent-peer-Close", "peer-close-then-CloseNow", "closeread-data-then-Close", "closeread-partial-data-stall-then-CloseNow", "closeread-partial-data-stall-then-Close", "write-error-then-CloseNow", "write-error-then-Close", "Close-unsendable-code", "Close-oversize-reason", "Close-and-CloseNow-together-peer-slow-and-silent"}
+var c20Endings = []string{"Close", "CloseNow", "peer-close-then-Close", "protocol-error-then-CloseNow", "ctx-expiry-then-Close", "cut-eof-then-Close", "cut-err-then-CloseNow", "silent-peer-Close", "peer-close-then-CloseNow", "closeread-data-then-Close", "closeread-partial-data-stall-then-CloseNow", "closeread-partial-data-stall-then-Close", "write-error-then-CloseNow", "write-error-then-Close", "Close-unsendable-code", "Close-oversize-reason", "Close-and-CloseNow-together-peer-slow-and-silent", "closeread-data-behind-a-stalled-write-then-CloseNow"}
 
 func runC20(r *Run) {
 	t := r.Tape
@@ -86,8 +86,11 @@ func runC20(r *Run) {
 		if p.closeRead {
 			p.abReader, p.netconn = false, false
 		}
-		if p.ending >= 9 && p.ending <= 11 {
+		if p.ending >= 9 && p.ending <= 11 || p.ending == 17 {
 			p.closeRead, p.abReader, p.netconn = true, false, false
+		}
+		if p.ending == 17 {
+			p.abWriter = false
 		}
 		if p.ending >= 12 {
 			p.abWriter = false
@@ -322,6 +325,25 @@ func runC20(r *Run) {
 			} else {
 				cerr = c.Close(websocket.StatusNormalClosure, "done")
 			}
+		case 17:
+			// An application write is stuck in the transport (the peer does not read)
+			// when a data message makes CloseRead's goroutine start its close handshake:
+			// that handshake cannot even write its Close frame. Whatever it does, the
+			// connection must end up closed, and CloseNow must leave nothing behind.
+			held17 := true
+			peer.Hold = func() bool { return held17 }
+			rc.Lib.Out().Cap = rc.Lib.Out().Buffered()
+			rc.Lib.Out().HardCap = true
+			r.S.Go(fmt.Sprintf("%s.stuckwriter%d", who, idx), func() {
+				c.Write(bg, websocket.MessageBinary, Payload{Kind: 2, Len: 3000, Seed: 7}.Bytes())
+			})
+			r.S.ParkE("a."+who+".stuck", func() bool { return rc.Lib.InWriteLocked() || rc.Lib.ClosedLocked() }, nil)
+			peer.Inject(peer.Encode(wsref.Frame{Fin: true, Opcode: wsref.OpText, Payload: []byte("unexpected data")}))
+			r.S.Sleep(7 * time.Second)
+			cerr = c.CloseNow()
+			held17 = false
+			r.S.Kick()
+			r.S.Count("probe.closeread-handshake-behind-stalled-write")
 		case 16:
 			if p.pair {
 				cerr = c.Close(websocket.StatusNormalClosure, "done")
